@@ -78,6 +78,9 @@ func C12(c *core.Ctx) {
 	emit(c, a.ParentPath())
 	// an output file's bytes do not depend on what an earlier run left there
 	emit(c, a.OutputFilesTruncated())
+	// "moving the schema directory elsewhere": which file a name resolves to depends on the name as written and the referring file's
+	// directory only (B-QUALIFIED, shared with C10)
+	emit(c, a.QualifiedResolution())
 	c.Floor("B-DET3:sources", len(t.Sources), 2, "file-path taint sources")
 	c.Floor("B-DET3:sanitiser", t.Sanitise, 1, "filepath.Base applications on the tainted path")
 	controls(c, "C12")
